@@ -6,7 +6,8 @@
 From Coq Require Import List NArith ZArith Bool Lia.
 From Coq.Strings Require Import Byte.
 From EV Require Import Base.Bytes Base.Zn Base.FreeMod Model.Script Model.Ideal Model.Verify Model.Blind Model.Tamper
-  Proofs.Ideal Proofs.Verify Proofs.Blind Proofs.Tamper Props.C04.
+  Proofs.Ideal Proofs.Verify Proofs.Blind Proofs.Tamper Props.C04
+  Gen.SrcExact Model.ExactProofs Proofs.ExactProofs.
 Import ListNotations.
 Open Scope Z_scope.
 
@@ -117,6 +118,46 @@ Example C05_example_explicit :
   verify_tx_amt_proofs T f13_spent = OVal tt.
 Proof. vm_compute. reflexivity. Qed.
 
+(* ---- exact-value / exact-asset proofs of PSET explicit fields (BlindValueProofs, BlindAssetProofs; Model/ExactProofs.v).
+   bvp_verify's acceptance condition is src_bvp_accept of Gen/SrcExact.v, TRANSLATED from src/blind.rs on every run. *)
+(* accepted => the commitment opens to EXACTLY the claimed value on the given generator, and the proof's stated range is that single value *)
+Theorem C05_exact_value_sound : forall (rr : rrproof) (v : N) (gen c : gel),
+  bvp_verify rr v gen c = true ->
+  geq c (commit (Z.of_N v) gen (rp_vbf (rr_rp rr))) /\ rp_value (rr_rp rr) = Z.of_N v /\ rr_min rr = Z.of_N v /\ rr_max rr = Z.of_N v.
+Proof. exact bvp_sound. Qed.
+(* a proof that states more than one value is refused whatever is claimed — in particular every proof made with exponent 0
+   (all output range proofs), even when its minimum IS the claimed value *)
+Theorem C05_exact_value_wide_refused : forall (rr : rrproof) (v : N) (gen c : gel), rr_min rr < rr_max rr -> bvp_verify rr v gen c = false.
+Proof. exact bvp_wide_refused. Qed.
+Theorem C05_exact_value_exp0_refused : forall m b c value vbf msg key gen rr v' gen' c',
+  m <> U64_MAX -> rr_new m c value vbf msg [] key 0 b gen = Some rr -> bvp_verify rr v' gen' c' = false.
+Proof. exact wide_proof_refused. Qed.
+Theorem C05_exact_value_other_refused : forall (rr : rrproof) (v : N) (gen c : gel), rp_value (rr_rp rr) <> Z.of_N v -> bvp_verify rr v gen c = false.
+Proof. exact bvp_other_value_refused. Qed.
+(* the genuine proof is accepted; the condition's u64 subtraction never goes below zero *)
+Theorem C05_exact_value_complete : forall v gen vbf, 0 <= v <= U64_MAX ->
+  exists rr, bvp_new v (commit v gen vbf) gen vbf = Some rr /\ bvp_verify rr (Z.to_N v) gen (commit v gen vbf) = true.
+Proof. exact bvp_complete. Qed.
+Theorem C05_exact_value_no_panic : forall rr v gen c, bvp_verify_safe rr v gen c = true.
+Proof. exact bvp_no_panic. Qed.
+(* the range a prover states always contains the value it proves (exponents -1 and 0) *)
+Theorem C05_prover_range_contains : forall m e b v lo hi, prove_range m e b v = Some (lo, hi) -> lo <= v <= hi.
+Proof. exact prove_range_contains. Qed.
+(* exact-asset proofs: accepted => the generator is the asset's generator plus a multiple of G; names one asset; genuine accepted *)
+Theorem C05_exact_asset_sound : forall sp a g, bap_verify sp a g = true -> geq g (asset_gen a (sp_diff sp)).
+Proof. exact bap_sound. Qed.
+Theorem C05_exact_asset_binds : forall sp a b g, bap_verify sp a g = true -> bap_verify sp b g = true -> a = b.
+Proof. exact bap_binds. Qed.
+Theorem C05_exact_asset_complete : forall a abf, exists sp, bap_new a abf = Some sp /\ bap_verify sp a (asset_gen a abf) = true.
+Proof. exact bap_complete. Qed.
+(* non-vacuity: a proof over [1000, 1000 + 2^16) for the committed value 1500 is made, verifies as a range proof, and is refused as an
+   exact proof for 1000 (its minimum), for 1500 (its value) and for anything else *)
+Example C05_example_wide :
+  match rr_new 1000 (commit 1500 (gH 7) 9) 1500 9 (0%N, 0) [] 0 0 16 (gH 7) with
+  | Some rr => (rr_verify rr (commit 1500 (gH 7) 9) [] (gH 7), bvp_verify rr 1000 (gH 7) (commit 1500 (gH 7) 9), bvp_verify rr 1500 (gH 7) (commit 1500 (gH 7) 9))
+  | None => (None, true, true) end = (Some (1000%N, 66536%N), false, false).
+Proof. vm_compute. reflexivity. Qed.
+
 Check (C05_sound : forall (T : tx) (spent : list txout) (ss : list secrets),
   verify_tx_amt_proofs T spent = OVal tt -> opens (t_in T) spent ss ->
   Forall (fun s => u64 (s_value s)) ss -> Forall (fun o => forall v, o_value o = VExp v -> u64 v) (t_out T) ->
@@ -145,3 +186,13 @@ Print Assumptions C05_explicit_iff.
 Print Assumptions C05_len_mismatch.
 Print Assumptions C05_zero_value_unspendable_skipped.
 Print Assumptions C05_zero_value_spendable_rejected.
+Check (C05_exact_value_sound : forall (rr : rrproof) (v : N) (gen c : gel),
+  bvp_verify rr v gen c = true ->
+  geq c (commit (Z.of_N v) gen (rp_vbf (rr_rp rr))) /\ rp_value (rr_rp rr) = Z.of_N v /\ rr_min rr = Z.of_N v /\ rr_max rr = Z.of_N v).
+Check (C05_exact_value_wide_refused : forall (rr : rrproof) (v : N) (gen c : gel), rr_min rr < rr_max rr -> bvp_verify rr v gen c = false).
+Check (C05_exact_asset_binds : forall sp a b g, bap_verify sp a g = true -> bap_verify sp b g = true -> a = b).
+Print Assumptions C05_exact_value_sound.
+Print Assumptions C05_exact_value_wide_refused.
+Print Assumptions C05_exact_value_exp0_refused.
+Print Assumptions C05_exact_value_complete.
+Print Assumptions C05_exact_asset_sound.
